@@ -126,6 +126,8 @@ class Obs:
         self.lines = out.splitlines()
         self.T, self.S, self.L, self.R = {}, {}, {}, {}       # (accessor, lex) -> [dict,...] ; routes (kind, spelling, lex) -> [dict]
         self.bad_ops = [l for l in self.lines if l.startswith('bad-op')]
+        self.early_diff = [l for l in self.lines if l.startswith('early ') and ' differs ' in l]
+        self.early_checked = next((int(l.split('checked=')[1].split()[0]) for l in self.lines if l.startswith('early-constants ')), 0)
         for ln in self.lines:
             f = ln.split()
             if not f or f[0] not in 'TSLR' or len(f[0]) != 1:
@@ -373,8 +375,14 @@ def run(tier):
     o, rows = box['o'], box['rows']
     script = '\n'.join(o.ops) + '\n'
     if o.rc != 0 or o.bad_ops:
-        res.violation('crash', 'c13probe stopped (exit %d) after %d output lines %s\n%s' % (o.rc, len(o.lines), o.bad_ops[:3], o.err[-3000:]), script)
+        where = ' (no output at all: the probe died before main(), while a Lexicon was used during the static initialisation of a client translation unit)' if not o.lines else ''
+        res.violation('crash', 'c13probe stopped (exit %d) after %d output lines%s %s\n%s' % (o.rc, len(o.lines), where, o.bad_ops[:3], o.err[-3000:]), script)
     else:
+        for ln in o.early_diff[:4]:
+            what = ln.split()[1]
+            res.violation('static-init:' + what, 'the constant `%s()` answered by a Lexicon that a client translation unit (linked before the library) uses during '
+                          'static initialisation is not the node / name / spelling / type a Lexicon answers in main(): %s' % (what, ln),
+                          '# static-init %s\n# %s\n' % (what, ln))
         bad = oracle(rows, o.ninst, o.doc, o.cats)
         seen = set()
         for key, msg in bad:
@@ -399,6 +407,7 @@ def run(tier):
     res.cov['traces_validated_against_impl'] = o.ninst
     res.cov['exhaustive'] = True
     res.cov['lexicon_instances_in_one_process'] = o.ninst
+    res.cov['constants_compared_with_their_state_during_static_initialisation'] = o.early_checked
     res.cov['ops'] = len(o.ops)
     res.cov['op_kinds'] = {k: sum(1 for x in o.ops if x.split()[0] == k) for k in ('new', 'destroy', 'noise', 'types', 'auto', 'symbols', 'linkages', 'route')}
     res.cov['route_kinds'] = {k: sum(1 for x in o.ops if x.startswith('route') and x.split()[2] == k) for k in ('as_type', 'ident', 'linkage', 'label', 'decltype_nullptr')}
